@@ -550,7 +550,14 @@ def r13_5(ctx):
                 form = lin(cnt)
                 meas = [k for k in form if k not in ("", total_p)]
                 ok = norm(l) == text_p and form.get(total_p) == 1 and len(meas) == 1 and form.get(meas[0]) == -1 and "" not in form
-                if ok:
+                if ok and meas[0] == f"cell_len({text_p})":
+                    pass
+                elif ok and not meas[0].isidentifier():
+                    ok = False
+                elif ok:
+                    for nid in gs.nodes_of(n):
+                        if not rds.get(nid, {}).get(meas[0]):
+                            ok = False
                     for nid in gs.nodes_of(n):
                         for d in rds.get(nid, {}).get(meas[0], set()):
                             v = getattr(gs.nodes[d].stmt, "value", None)
